@@ -235,6 +235,10 @@ func (e *Exec) evalExternal(call *ast.CallExpr, st *State, ctx *Ctx) []string {
 		e.evalArgs(call, st, ctx)
 		return nil
 	}
+	// buffers and the encoders bound to them
+	if r, ok := e.bufferCall(call, name, st, ctx); ok {
+		return r
+	}
 	// a hasher created by sha256.New(): Write appends to its input, Sum(nil) is the digest of everything written
 	if sel, ok := call.Fun.(*ast.SelectorExpr); ok && e.hashOf != nil {
 		if id, ok := sel.X.(*ast.Ident); ok {
@@ -421,4 +425,66 @@ func (e *Exec) sweepLiteral(lit *ast.FuncLit, st *State, ctx *Ctx) {
 	run.path = append(run.path, "lit")
 	e.execBlock(lit.Body.List, run, &Ctx{frame: fr}, func(*State) {})
 	e.havoc(st, vars, fields)
+}
+
+// bufferCall models bytes.Buffer and the json/yaml/toml encoders writing to one.
+func (e *Exec) bufferCall(call *ast.CallExpr, name string, st *State, ctx *Ctx) ([]string, bool) {
+	arg := func(i int) string { return e.eval(call.Args[i], st, ctx) }
+	switch name {
+	case "encoding/json.NewEncoder", "gopkg.in/yaml.v3.NewEncoder", "github.com/pelletier/go-toml/v2.NewEncoder":
+		b := arg(0)
+		if _, ok := st.bufs[b]; !ok {
+			return nil, false
+		}
+		codec := map[string]string{"encoding/json.NewEncoder": "codecJSON", "gopkg.in/yaml.v3.NewEncoder": "codecYAML", "github.com/pelletier/go-toml/v2.NewEncoder": "codecTOML"}[name]
+		h := e.fresh(st, "encoder", "Int")
+		st.assume("(> " + h + " 0)")
+		st.encs[h] = [3]string{b, codec, "0"}
+		return []string{h}, true
+	}
+	sel, ok := call.Fun.(*ast.SelectorExpr)
+	if !ok {
+		return nil, false
+	}
+	if _, isSel := e.info(ctx).Selections[sel]; !isSel {
+		return nil, false
+	}
+	recvT := e.typeOf(sel.X, ctx)
+	if recvT == nil || !(strings.Contains(types.TypeString(recvT, nil), "Buffer") || strings.Contains(types.TypeString(recvT, nil), "Encoder")) {
+		return nil, false
+	}
+	recv := e.eval(sel.X, st, ctx)
+	if content, ok := st.bufs[recv]; ok {
+		switch sel.Sel.Name {
+		case "Write", "WriteString":
+			st.bufs[recv] = "(str.++ " + content + " " + arg(0) + ")"
+			return e.havocResults(call, st, ctx, "bufwrite"), true
+		case "Bytes", "String":
+			return []string{content}, true
+		case "Len":
+			return []string{"(str.len " + content + ")"}, true
+		}
+		return nil, false
+	}
+	if enc, ok := st.encs[recv]; ok {
+		switch sel.Sel.Name {
+		case "SetIndent", "SetEscapeHTML":
+			cfg := sel.Sel.Name
+			for i := range call.Args {
+				cfg += "_" + sanitize(arg(i))
+			}
+			fn := "cfg_" + cfg
+			e.global(fn, fmt.Sprintf("(declare-fun %s (Int) Int)", fn))
+			st.encs[recv] = [3]string{enc[0], "(" + fn + " " + enc[1] + ")", enc[2]}
+			return nil, true
+		case "Encode":
+			v := e.evalTo(call.Args[0], types.NewInterfaceType(nil, nil), st, ctx)
+			errT := "(encE " + enc[1] + " " + v + " " + enc[2] + ")"
+			content := st.bufs[enc[0]]
+			st.bufs[enc[0]] = "(ite (isErr " + errT + ") " + content + " (str.++ " + content + " (encS " + enc[1] + " " + v + " " + enc[2] + ")))"
+			st.encs[recv] = [3]string{enc[0], enc[1], "(+ " + enc[2] + " 1)"}
+			return []string{errT}, true
+		}
+	}
+	return nil, false
 }
